@@ -93,7 +93,7 @@ RAGGED_S = ['cc', 'c', 'ccc']   # ragged, str cells only (UNNEST arguments call 
 SHAPES_QUICK = [['oo', 'o'], ['o', 'ooo', ''], ['ooo', 'so']]
 SHAPES_ALL = [[], ['ooo'], [''], ['oo', 'o'], ['o', 'oo'], ['oo', 'oo'], ['', 'o'], ['ooo', 'o'], ['o', 'ooo', ''], ['oo', '', 'ooo'], ['o', 'o', 'o'], ['oo', 'o', 'oo'], ['ooo', 'oo', 'o']]
 JSHAPES_QUICK = [(['ks', 'ks'], ['ks', 'ks'])]
-JSHAPES_ALL = [(['ks', 'ks'], ['ks', 'ks']), (['ko'], ['ko', 'ko']), (['ks', 'k', 'ks'], ['ks']), ([], ['ks']), (['ks', 'ks'], []), (['ks'], ['ks', 'k', 'kss'])]
+JSHAPES_ALL = [(['ks', 'ks'], ['ks', 'ks']), (['ko'], ['ko', 'ko']), (['ks', 'k', 'ks'], ['ks']), ([], ['ks']), (['ks', 'ks'], []), (['ks'], ['ks', 'k', 'kss']), (['ks', 'ks'], ['k', 'kss'])]
 
 
 def selfcheck():
@@ -111,6 +111,9 @@ def obligations(tier, seed):
                 obs.append(qh.query_obl('C01', name, q, a, b, krange=2, timeout=150, check_sources=True, mutate_output=True))
             else:
                 obs.append(qh.query_obl('C01', name, q, SHAPES_QUICK[2] if name.startswith('except[dup') else (RAGGED_S if ('star' in name and 'un' in name) else SHAPES_QUICK[(i + seed) % 2]), timeout=150, check_sources=True, mutate_output=True))
+        # star expansion of the LEFT JOIN null record: as wide as the WIDEST join record, which need not be the first one
+        for name in ('join_left[bstar,a2|w=None]', 'join_left[lit7,bstar,star|w=None]'):
+            obs.append(qh.query_obl('C01', name, CASES[name], ['ks', 'ks'], ['k', 'kss'], krange=2, timeout=150, check_sources=True, mutate_output=True, tag='#raggedB'))
         # seed-rotated sample of the thorough family (cheap shapes): successive quick runs sweep through it
         cheap = [['so', 's'], ['s', 'sos', ''], ['os', 'ss'], ['sss'], ['s', 's', 'so']]
         for i, name in enumerate(qh.rotating([n for n in THOROUGH if n not in QUICK], seed, 12)):
